@@ -136,6 +136,7 @@ pub fn engine_by_name(name: &str) -> Option<Box<dyn Engine>> {
         "fsfault" => Some(Box::new(crate::engine_fsfault::FsFault)),
         "cli" => Some(Box::new(crate::engine_cli::Cli)),
         "imports" => Some(Box::new(crate::engine_imports::Imports)),
+        "logger" => Some(Box::new(crate::engine_logger::LoggerEngine)),
         _ => None,
     }
 }
